@@ -147,6 +147,13 @@ def nonmutating_ops(fam):
         ('H.is_hermitian', lambda psi, phi, H: H.is_hermitian()),
         ('H.copy', lambda psi, phi, H: H.copy()),
         ('H.get_full_hamiltonian-like', lambda psi, phi, H: H.get_W(1).conj()),
+        # propagators are built from the W tensors of H and then modified in place: H itself must stay intact
+        # (real dt on a real H / any dt on a complex H needs no dtype conversion, i.e. no implicit copy)
+        ('H.make_U_I(real dt)', lambda psi, phi, H: H.make_U_I(0.25)),
+        ('H.make_U_I(imag dt)', lambda psi, phi, H: H.make_U_I(-0.25j)),
+        ('H.make_U_II(real dt)', lambda psi, phi, H: H.make_U_II(0.25)),
+        ('H.make_U_II(imag dt)', lambda psi, phi, H: H.make_U_II(-0.25j)),
+        ('H.make_U_I(real dt)-then-modify', lambda psi, phi, H: H.make_U_I(0.25).get_W(1, copy=False).iscale_prefactor(3.0)),
     ]
     return ops
 
